@@ -45,6 +45,11 @@ def build_universe(env):
     F["F15"] = m.Minus(m.Plus(m.Int(3), m.Int(2)), x)
     F["F16"] = m.LE(F["F15"], y)
     F["F17"] = m.Or(a, m.And(S["FV1"], b))
+    # a power over an Int-typed non-linear base, and another formula sharing that base (analyses that
+    # memoise one result object per node must not let the result of the power touch the base's)
+    xy = m.Times(x, y)
+    F["F18"] = m.Equals(m.Pow(xy, m.Int(2)), r)
+    F["F19"] = m.Equals(xy, m.Int(4))
     return S, F
 
 
@@ -269,9 +274,14 @@ def ackey(f):
     return memo[f]
 
 
-def query_events(names, quick=True):
+# single events over further universe formulas (not the full per-formula alphabet)
+EXTRA_EVENTS = (("simplify", "F14"), ("logic", "F18"), ("theory", "F18"), ("simplify", "F18"), ("types", "F18"),
+                ("logic", "F19"))
+
+
+def query_events(names, quick=True, extra=()):
     """the alphabet of non-failing events over the named universe formulas"""
-    evs = []
+    evs = [e for e in extra if e[1] not in names]
     for n in names:
         evs.append(("build", n))
         evs.append(("get_type", n))
